@@ -165,6 +165,46 @@ def kernel_functions(repo, outdir):
     write(os.path.join(outdir, "Kernel.lean"), "\n".join(out))
     return len(KERNEL_FNS) + 1
 
+AFF = "geo/src/algorithm/affine_ops.rs"
+AFF_PATHS = {"T::zero": "0", "T::one": "1", "None": "none"}
+AFF_IDX = [(r"([A-Za-z_]+)\.1⟦(\d)⟧⟦(\d)⟧", r"\1.m\2\3")]
+# (header regex, Lean name, parameters, result type, funcs, subst, extra regex substitutions)
+AFFINE_FNS = [
+    (r"pub fn new\(a: T, b: T, xoff: T, d: T, e: T, yoff: T\) -> Self \{", "affNew", "(a b xoff d e yoff : Rat)", "Affine Rat",
+     {"Self": "Affine.ofRows"}, [], []),
+    (r"pub fn compose\(&self, other: &Self\) -> Self \{", "affCompose", "(self_ other : Affine Rat)", "Affine Rat",
+     {"Self": "Affine.ofRows"}, [("self", "self_")], AFF_IDX),
+    (r"pub fn apply\(&self, coord: Coord<T>\) -> Coord<T> \{", "affApply", "(self_ : Affine Rat) (coord : Pt)", "Pt",
+     {}, [("self", "self_")], AFF_IDX),
+    (r"pub fn scale\(xfact: T, yfact: T, origin: impl Into<Coord<T>>\) -> Self \{", "affScale",
+     "(xfact yfact : Rat) (origin : Rat × Rat)", "Affine Rat", {"Self::new": "affNew"}, [], [(r"origin\.into\.x_y", "origin")]),
+    (r"pub fn translate\(xoff: T, yoff: T\) -> Self \{", "affTranslate", "(xoff yoff : Rat)", "Affine Rat",
+     {"Self::new": "affNew"}, [], []),
+    (r"pub fn identity\(\) -> Self \{", "affIdentity", "", "Affine Rat", {"Self::new": "affNew"}, [], []),
+    (r"pub fn rotate\(degrees: U, origin: impl Into<Coord<U>>\) -> Self \{", "affRotate",
+     "(trig : Rat × Rat) (origin : Rat × Rat)", "Affine Rat", {"Self::new": "affNew"}, [],
+     [(r"origin\.into\.x_y", "origin"), (r"degrees\.to_radians\.sin_cos", "trig")]),
+    (r"pub fn inverse\(&self\) -> Option<Self>.*?\{", "affInverse", "(self_ : Affine Rat)", "Option (Affine Rat)",
+     {"Self::new": "affNew", "Some": "some"}, [("self", "self_")], AFF_IDX),
+]
+
+def affine_functions(repo, outdir):
+    """Gen/AffineGen.lean: the algebraic core of `AffineTransform` regenerated from affine_ops.rs (at `Rat`)."""
+    import rsexpr
+    src = strip_comments(open(os.path.join(repo, AFF)).read())
+    out = ["/- generated by translator/rs2lean.py (rsexpr) from %s; do not edit -/" % AFF,
+           "import GeoModel.Affine", "", "namespace Geo.Gen", "open Geo", ""]
+    for (hdr, name, params, ret, funcs, subst, resub) in AFFINE_FNS:
+        try:
+            term = rsexpr.translate(src, hdr, AFF_PATHS, funcs, subst, structs={"Coord": ("Pt.mk", ["x", "y"])}, resub=resub)
+        except rsexpr.TranslateError as e:
+            die("%s (%s): %s" % (name, AFF, e))
+        out.append("/-- `AffineTransform::%s` — %s -/" % (name, AFF))
+        out.append("def %s %s : %s :=\n  %s\n" % (name, params, ret, term))
+    out += ["end Geo.Gen", ""]
+    write(os.path.join(outdir, "AffineGen.lean"), "\n".join(out))
+    return len(AFFINE_FNS)
+
 ENDPT = {"p.start": "p1", "p.end": "p2", "q.start": "q1", "q.end": "q2"}
 
 def collinear_table(repo, outdir):
@@ -263,7 +303,8 @@ def main():
     write(os.path.join(outdir, "Enums.lean"), "\n".join(enums))
     rows = collinear_table(repo, outdir)
     nk = kernel_functions(repo, outdir)
-    print("rs2lean: wrote Masks.lean (%d predicates), Enums.lean (%d op rules), CollinearTable.lean (%d rows), Kernel.lean (%d functions)" % (len(fns), len(pairs), rows, nk))
+    na = affine_functions(repo, outdir)
+    print("rs2lean: wrote Masks.lean (%d predicates), Enums.lean (%d op rules), CollinearTable.lean (%d rows), Kernel.lean (%d functions), AffineGen.lean (%d functions)" % (len(fns), len(pairs), rows, nk, na))
 
 if __name__ == "__main__":
     main()
